@@ -20,8 +20,8 @@ def to_sympy(e, syms):
         return sympy.Integer(e.as_long())
     if z3.is_algebraic_value(e):
         raise NotPolynomial("algebraic literal")
-    if z3.is_const(e) and e.decl().kind() == z3.Z3_OP_UNINTERPRETED:
-        n = e.decl().name()
+    if z3.is_app(e) and e.decl().kind() == z3.Z3_OP_UNINTERPRETED:
+        n = e.decl().name() if e.num_args() == 0 else str(e)       # uninterpreted applications are opaque symbols
         if n not in syms:
             syms[n] = sympy.Symbol(n, real=True)
         return syms[n]
@@ -88,12 +88,57 @@ def prove(pc, goal, timeout_s=60, hyps=None):
         return "unknown", str(e)
     allsyms = sorted({s for g in gens for s in g.free_symbols} | {s for e in eqs for s in e.free_symbols}, key=lambda s: s.name)
     G = None
-    if gens:
-        try:
-            G = sympy.groebner(gens, *allsyms, order="grevlex")
-        except Exception as e:
-            return "unknown", f"groebner failed: {e}"
+    # cheap complete-in-practice pre-pass: defining equations  n**2 == p  (norm symbols) used as rewrite rules
+    rules = []
+    def _idx(sym):
+        nm = sym.name
+        return int(nm.split("!")[1]) if "!" in nm and nm.split("!")[1].isdigit() else 0
+    for g_ in gens:
+        # the symbol a generator *defines* is the most recently created norm/sqrt symbol in it (deterministic choice)
+        for sym in sorted(g_.free_symbols, key=lambda x: (-_idx(x), x.name)):
+            pl = sympy.Poly(g_, sym)
+            if pl.degree() == 2 and pl.coeff_monomial(sym) == 0 and sym not in pl.coeff_monomial(1).free_symbols \
+                    and sym not in sympy.sympify(pl.coeff_monomial(sym ** 2)).free_symbols and sym.name.startswith(("norm", "sqrt", "sin")):
+                rules.append((sym, sympy.together(-pl.coeff_monomial(1) / pl.coeff_monomial(sym ** 2))))
+                break
+
+    def rewrite(poly):
+        # rules are applied innermost-last (later norm symbols are defined in terms of earlier ones)
+        for _ in range(8):
+            changed = False
+            for sym, rhs in reversed(rules):
+                if sym in poly.free_symbols:
+                    pp = sympy.Poly(poly, sym)
+                    if pp.degree() >= 2:
+                        new = 0
+                        for (k,), c in pp.terms():
+                            new += c * sym ** (k % 2) * rhs ** (k // 2)
+                        num_, _den = sympy.fraction(sympy.together(new))
+                        poly = sympy.expand(num_)
+                        changed = True
+                        if poly == 0:
+                            return poly
+            if not changed:
+                break
+        return poly
+    todo = []
     for e in eqs:
+        num, den = sympy.fraction(sympy.together(e))
+        num = sympy.expand(num)
+        if num == 0:
+            continue
+        if rules and rewrite(num) == 0:
+            continue
+        todo.append(e)
+    if not todo:
+        return "proved", f"{len(eqs)} identities by rewriting with {len(rules)} defining equations"
+    if time.time() - t0 > timeout_s:
+        return "unknown", "timeout"
+    try:
+        G = sympy.groebner(gens, *allsyms, order="grevlex") if gens else None
+    except Exception as e:
+        return "unknown", f"groebner failed: {e}"
+    for e in todo:
         num, den = sympy.fraction(sympy.together(e))
         num = sympy.expand(num)
         if num == 0:
